@@ -63,7 +63,7 @@ type ContractDB struct {
 	Files []string
 }
 
-var clauseKw = map[string]bool{"requires": true, "ensures": true, "assigns": true, "loop": true, "emits": true, "emits_filtered": true, "let": true, "opt": true, "walk": true, "panics": true, "succeeds": true}
+var clauseKw = map[string]bool{"requires": true, "assumes": true, "ensures": true, "assigns": true, "loop": true, "emits": true, "emits_filtered": true, "let": true, "opt": true, "walk": true, "panics": true, "succeeds": true}
 var propRe = regexp.MustCompile(`^C[0-9]{2,3}$`)
 
 // LoadContracts parses all zz_verif_contracts.go files of the given package dirs.
@@ -217,7 +217,7 @@ func (c *Contract) Prepare() error {
 	for _, cl := range c.Clauses {
 		var err error
 		switch cl.Kind {
-		case "requires", "ensures", "invariant", "walkinv", "let", "panics", "succeeds":
+		case "requires", "assumes", "ensures", "invariant", "walkinv", "let", "panics", "succeeds":
 			cl.node, err = ParseSpec(cl.Text)
 		case "assigns":
 			if strings.TrimSpace(cl.Text) == `\nothing` {
